@@ -44,12 +44,14 @@ def generate(seed, stratum, tier):
   # the other clients wait until the fabric runs
   for c in range(1, nclients):
     clients[c].insert(0, ['sleep', 0.001])
-  return {'queues': queues, 'clients': clients, 'signals': sigs,
+  return {'queues': queues, 'clients': clients, 'signals': sigs, 'stalls': common.draw_stalls(rng, 600, rate=0.3),
           'sched': common.draw_sched(rng, grans=('sync', 'line', 'opcode'), weights=(1, 3, 2), expected_steps=600,
                                      victims=[rng.choice(['fabric.fifo', 'fabric.lifo'])])}
 
 
 def shrink_candidates(sc):
+  if sc.get('stalls'):
+    yield dict(sc, stalls={})
   cl = sc['clients']
   for i, s in enumerate(cl):
     for j in range(len(s) - 1, -1, -1):
